@@ -47,6 +47,11 @@ def gen_texts(ctx, i, rng, n):
             out.append(("stress:" + tag, t, None))
         return out
     for _ in range(n):
+        if rng.random() < 0.3:
+            # near-miss statements: one token of a statement template deleted, doubled, swapped or replaced (51 500 single mutations)
+            tag, text, ext = G.stmt_mutation_text(rng)
+            out.append(("stmt-mutation:" + tag, text, ext))
+            continue
         r = rng.random()
         p, t = rng.choice(samples)
         ext = os.path.splitext(p)[1]
